@@ -257,6 +257,7 @@ class Injector:
         self.tags = {}       # id(exception) -> (kind, step)
         self.keep = []
         self.trace = []      # steps in the order the implementation attempts them
+        self.nat = {}        # step -> (kind, text at A) for failures the OS / library produced by itself
 
     # -- exceptions ------------------------------------------------------
     def tag(self, e, step):
@@ -286,6 +287,7 @@ class Injector:
             return f(*a, **k)
         except BaseException as e:
             self.tag(e, step)
+            self.nat.setdefault(step, ("exc" if isinstance(e, Exception) else "base", read_text(self.A)))
             raise
 
     # -- patched primitives -----------------------------------------------
@@ -469,7 +471,11 @@ def run_patch(a_text, b_text, delta_bytes, keep, debug, plan, prebak, work):
         f.write(b_text)
     with open(P, "wb") as f:
         f.write(delta_bytes)
-    if prebak:
+    if prebak == "dir":
+        os.mkdir(A + ".bak")
+        with open(os.path.join(A + ".bak", "x"), "w") as f:
+            f.write("x")
+    elif prebak:
         with open(A + ".bak", "w") as f:
             f.write("BAK0")
     args = [A, P] + (["--backup"] if keep else []) + (["--debug"] if debug else [])
@@ -493,7 +499,7 @@ def run_patch(a_text, b_text, delta_bytes, keep, debug, plan, prebak, work):
     with _REAL["open"](P, "rb") as f:
         p_same = f.read() == delta_bytes
     obs = {"A": read_text(A), "bak": read_text(A + ".bak"), "B": read_text(B), "P_same": p_same,
-           "cli": cli, "fired": dict(inj.fired), "output": output[-300:], "trace": list(inj.trace),
+           "cli": cli, "fired": dict(inj.fired), "nat": dict(inj.nat), "output": output[-300:], "trace": list(inj.trace),
            "others": sorted(x for x in os.listdir(d) if x not in ("a.json", "a.json.bak", "b.json", "delta.pickle"))}
     shutil.rmtree(d, ignore_errors=True)
     return obs
@@ -523,7 +529,7 @@ def run_save_direct(a0, b0, content_ok, keep, plan, work):
             kind, step = inj.tags.get(id(e), ("exc" if isinstance(e, Exception) else "base", "untagged:" + type(e).__name__))
             outcome = ["raised", kind, step]
     obs = {"A": read_text(A), "bak": read_text(A + ".bak"), "B": read_text(B), "outcome": outcome,
-           "fired": dict(inj.fired), "new_text": new_text, "trace": list(inj.trace)}
+           "fired": dict(inj.fired), "nat": dict(inj.nat), "new_text": new_text, "trace": list(inj.trace)}
     shutil.rmtree(d, ignore_errors=True)
     return obs
 
@@ -552,13 +558,19 @@ def coq_opt_content(c):
     return "None" if c is None else "(Some %s)" % coq_zlist(c)
 
 
-def coq_sched(plan, fired, code):
+def coq_sched(plan, fired, code, nat=None):
+    """the schedule given to the model: the planned faults (with the debris observed on disk when they fired)
+    plus the failures the OS / library produced by itself (e.g. rename onto a directory)"""
     items = []
+    nat = nat or {}
     for step in STEPS:
-        if step not in plan:
+        if step in fired or (step in plan and step not in nat):
+            kind = plan[step][0]
+            disk = code(fired[step]) if step in fired else None
+        elif step in nat:
+            kind, disk = nat[step][0], code(nat[step][1])
+        else:
             continue
-        kind = plan[step][0]
-        disk = code(fired[step]) if step in fired else None
         items.append("(%s, %s %s)" % (COQ_STEP[step], "fx" if kind == "exc" else "fb", coq_opt_content(disk)))
     return "[" + "; ".join(items) + "]"
 
@@ -619,6 +631,11 @@ def oracle_faulty(a_text, b_text, new_text, plan, prebak, o):
     nfired = len(o["fired"])
     single_exc = (len(plan) == 1 and nfired == 1 and list(plan.values())[0][0] == "exc")
     step = list(plan)[0] if len(plan) == 1 else None
+    if prebak == "dir":
+        # the operating system refuses the first rename: a single natural failure
+        if o["A"] != a_text or cli == ["exit", 0]:
+            return "A.bak is a directory (rename fails): A lost its content or the failure was swallowed"
+        return None
     if nfired == 0:
         if cli != ["exit", 0] or o["A"] != new_text:
             return "a run in which no fault was reached did not produce the patched content"
@@ -742,7 +759,7 @@ def pair_task(args):
             res["fails"].append((dict(case, clause=clause, observed=o), what))
         if not any(c == "reproduces" for c, _ in fails):
             count("oracle:reproduces_ok")
-            if json.dumps(loaded, sort_keys=True) != json.dumps(b_loaded, sort_keys=True):
+            if json.dumps(loaded, sort_keys=True, default=repr) != json.dumps(b_loaded, sort_keys=True, default=repr):
                 count("note:equal_but_not_type_identical(1==1.0==True)")
         if new_text is None:
             new_text = o["A"]
@@ -758,6 +775,7 @@ def pair_task(args):
     # later entries win: the most specific meaning of a text is assigned last
     table["GARB"] = [-3]
     table["BAK0"] = [-9]
+    table["<unreadable:IsADirectoryError>"] = [-8]
     if half:
         table[half] = [-4]
     table[b_text] = [idb]
@@ -771,6 +789,8 @@ def pair_task(args):
         fl = list(flagsets)
         if len(plan) <= 1:
             fl += [(False, True, True), (True, False, True)]      # A.bak already there
+            if len(plan) == 0:
+                fl += [(False, True, "dir"), (True, False, "dir")]    # A.bak is a directory: the OS itself fails the first rename
         elif mode != "all":
             fl = [rng.choice(flagsets)]
         for (keep, debug, prebak) in fl:
@@ -785,8 +805,8 @@ def pair_task(args):
             # ---- correspondence case --------------------------------------
             expr = "show_pipeline %s %s %s (Some %s) %s %s %s %s" % (
                 pos, core.coq_bool(keep), core.coq_bool(debug), coq_zlist([ida]),
-                "(Some %s)" % coq_zlist([-9]) if prebak else "None",
-                coq_zlist([idb]), core.coq_Z(resid), coq_sched(plan, o["fired"], code))
+                "(Some %s)" % coq_zlist([-8] if prebak == "dir" else [-9]) if prebak else "None",
+                coq_zlist([idb]), core.coq_Z(resid), coq_sched(plan, o["fired"], code, o["nat"]))
             cli = o["cli"]
             exp = [sx_file(code(o["A"])), sx_file(code(o["bak"])), sx_file(code(o["B"])), bool(o["P_same"]),
                    [cli[0], cli[1]]]
@@ -844,7 +864,7 @@ def direct_task(args):
                         code = make_coder(table)
                         expr = "show_save %s %s %s %s %s %s" % (
                             pos, core.coq_bool(keep), coq_opt_content([1] if a0 else None), coq_opt_content([-9] if b0 else None),
-                            coq_opt_content([2, 2] if ok else None), coq_sched(plan, o["fired"], code))
+                            coq_opt_content([2, 2] if ok else None), coq_sched(plan, o["fired"], code, o["nat"]))
                         exp = [sx_file(code(o["A"])), sx_file(code(o["bak"])), sx_file(code(o["B"])), o["outcome"]]
                         case = {"direct": True, "a_present": a0, "bak_present": b0, "serialisable": ok, "keep": keep,
                                 "faults": {s: list(kv) for s, kv in plan.items()}}
